@@ -16,7 +16,9 @@
      awake.set    first: poll_entries; second: end of poll, timers          XAwake1 (+ XClearN, XEntries), XAwake2 (+ XTimers) *)
 EXTENDS CompatLoop, Json
 
-CONSTANTS w1, w2, MaxLen
+CONSTANTS w1, w2, MaxLen,
+          JobLast,              \* targeted schedules: a job finishes only after every wake and operation has been delivered
+          JobAt, OpAt, WakeAt   \* targeted schedules: the event happens only while R is at one of these positions ({} = anywhere)
 TgtW1Main == (w1 :> "main")
 TgtW1T1 == (w1 :> "t1")
 TgtMT == (w1 :> "main") @@ (w2 :> "t1")
@@ -27,12 +29,16 @@ OwnP1 == ("o1" :> "main") @@ ("s1" :> "t1")                    \* with TgtW1T1
 OwnP2 == ("o1" :> "t1") @@ ("j1" :> "main")                    \* with TgtW1Main
 OwnP3 == ("o1" :> "main") @@ ("o2" :> "t1") @@ ("s1" :> "main") \* with TgtMT
 OwnP4 == ("o1" :> "main") @@ ("j1" :> "none")                  \* with TgtW1Main: a job nobody waits for
+OwnP7 == ("o1" :> "main") @@ ("j1" :> "main")                 \* with TgtNone: the smallest program that meets deviation 1
 OwnP5 == ("j1" :> "t1") @@ ("s1" :> "t1") @@ ("o1" :> "main")  \* with TgtNone
 
 VARIABLES hist
 gvars == <<allvars, hist>>
 
 \* ---- where the runtime thread is
+Pos == IF xpc = "run" THEN pcR ELSE IF xpc = "pset2" THEN "awake2" ELSE xpc
+At(W) == W = {} \/ Pos \in W
+JobOK == ~JobLast \/ ((\A w \in Wakers : pcW[w] = "done") /\ (\A o \in Ops : opSt[o] = "done"))
 WakerBusy == \E w \in Wakers : pcW[w] \notin {"begin", "done"}
 JobBusy == \E j \in Jobs : jobSt[j] \in {"sent", "write"}
 CanTurn == host = "tokio" /\ hEdge /\ xpc = "parked"
@@ -40,20 +46,22 @@ CanWakeNow == xpc = "parked" /\ ((IF host = "tokio" THEN hReady ELSE Level) \/ T
 Internal == WakerBusy \/ JobBusy \/ CanTurn
 \* the next action of the runtime thread starts at a site
 AtSite == \/ (xpc = "run" /\ pcR = "pollMain" /\ ~done)
-          \/ (xpc = "run" /\ pcR = "runTask")
+          \/ (xpc = "run" /\ pcR = "runTask" /\ ~fin[Head(hot)])
           \/ (xpc = "run" /\ pcR = "flush" /\ ~done)
           \/ xpc = "wait"
           \/ xpc = "clear"
-          \/ (xpc = "run" /\ pcR = "reset" /\ (Driver = "iour" => SentUntaken = {}))
+          \/ (xpc = "run" /\ pcR = "reset")
           \/ (xpc = "run" /\ pcR = "awake1")
           \/ (xpc = "run" /\ pcR = "awake2" /\ opBatch = {})
+          \/ xpc = "pset2"
 \* asleep in the host with nothing on its way
 Asleep == xpc = "parked" /\ ~CanWakeNow /\ ~CanTurn
 EnvOK == ~Internal /\ (AtSite \/ Asleep)
 
 ObsOf(T) == {s \in Srcs : Owner[s] = T /\ got'[s]} \cup {WName(w) : w \in {x \in Wakers : Target[x] = T /\ seen'[x]}}
-RT(site, arg, obs, blk) == hist' = Append(hist, [r |-> "R", site |-> site, arg |-> arg, obs |-> obs, blocks |-> blk])
-ET(ev, id) == hist' = Append(hist, [r |-> "E", site |-> ev, arg |-> id, obs |-> {}, blocks |-> FALSE])
+RT(site, arg, obs, blk) == hist' = Append(hist, [r |-> "R", site |-> site, arg |-> arg, obs |-> obs, blocks |-> blk, at |-> Pos])
+\* at = "parked": R sleeps in the host while this happens; otherwise R stands at a site (the harness waits for it)
+ET(ev, id) == hist' = Append(hist, [r |-> "E", site |-> ev, arg |-> id, obs |-> {}, blocks |-> FALSE, at |-> Pos])
 Quietly == UNCHANGED hist
 
 FlushFirst == pcR = "flush" /\ (XFlushArm \/ XFlush \/ XFlushReset)
@@ -77,22 +85,24 @@ GNext ==
               \/ XReset /\ RT("awake.reset", "", {}, FALSE)
               \/ XAwake1 /\ RT("awake.set", "1", {}, FALSE)
               \/ XAwake2 /\ RT("awake.set", "2", {}, FALSE)
+              \/ XPollSet2 /\ RT("awake.set", "2", {}, FALSE)
               \* the outside world moves while R is parked at the site
-              \/ \E w \in Wakers : pcW[w] = "begin" /\ XWStep(w) /\ ET("wake", WName(w))
-              \/ \E o \in Ops : KOpReady(o) /\ ET("op", o)
-              \/ \E j \in Jobs : JSend(j) /\ ET("job", j)
+              \/ \E w \in Wakers : At(WakeAt) /\ pcW[w] = "begin" /\ XWStep(w) /\ ET("wake", WName(w))
+              \/ \E o \in Ops : At(OpAt) /\ KOpReady(o) /\ ET("op", o)
+              \/ \E j \in Jobs : At(JobAt) /\ JobOK /\ JSend(j) /\ ET("job", j)
          ELSE IF Asleep
-           THEN \/ \E w \in Wakers : pcW[w] = "begin" /\ XWStep(w) /\ ET("wake", WName(w))
-                \/ \E o \in Ops : KOpReady(o) /\ ET("op", o)
-                \/ \E j \in Jobs : JSend(j) /\ ET("job", j)
+           THEN \/ \E w \in Wakers : At(WakeAt) /\ pcW[w] = "begin" /\ XWStep(w) /\ ET("wake", WName(w))
+                \/ \E o \in Ops : At(OpAt) /\ KOpReady(o) /\ ET("op", o)
+                \/ \E j \in Jobs : At(JobAt) /\ JobOK /\ JSend(j) /\ ET("job", j)
                 \* time passes only while everything sleeps
                 \/ (tmo = "timer" /\ \E t \in Timers : TimeDue(t) /\ ET("due", t))
            ELSE \* in the middle of a segment
                 /\ Quietly
-                /\ \/ LiftR(RDrainLoad) \/ LiftR(RPopped) \/ LiftR(RDrainSub) \/ XJoinWake
+                /\ \/ XRunTask      \* the stale id of a task that has finished: nothing is polled
+                   \/ LiftR(RDrainLoad) \/ LiftR(RPopped) \/ LiftR(RDrainSub) \/ XJoinWake
                    \/ (pcR # "flush" /\ (XFlush \/ XFlushReset)) \/ XFlushLeave \/ ADecide
                    \/ AWakeReady \/ (~(host = "tokio" /\ hReady) /\ AWakeTimeout)   \* a pending event wins over the timer
-                   \/ XPollBlocking \/ XArm \/ XEnter \/ XLeaveTimedOut \/ XLeave \/ XClearN \/ XEntries \/ XTimers
+                   \/ XPollBlocking \/ XPollNoBlocking \/ XArm \/ XEnter \/ XLeaveTimedOut \/ XLeave \/ XClearN \/ XEntries \/ XTimers
 GSpec == GInit /\ [][GNext]_gvars
 
 \* nothing can move any more although the future is not ready: the model's prediction of a lost completion
